@@ -121,3 +121,49 @@ impl<W: Write> crate::Output for Output<W> {
 		self.0.flush()
 	}
 }
+
+#[cfg(feature = "verif")]
+pub(crate) fn verif_reencode<'r, R: BufRead + 'r>(
+	reader: R,
+) -> io::Result<Box<dyn io::Read + 'r>> {
+	Ok(Box::new(Encoder::from_reader(reader)?))
+}
+
+#[cfg(feature = "verif")]
+pub(crate) fn verif_detect_encoding(prefix: &[u8]) -> &'static str {
+	match Encoding::detect(prefix) {
+		Encoding::Utf8 => "utf8",
+		Encoding::Utf16Big => "utf16be",
+		Encoding::Utf32Big => "utf32be",
+		Encoding::Utf16Little => "utf16le",
+		Encoding::Utf32Little => "utf32le",
+	}
+}
+
+#[cfg(feature = "verif")]
+pub(crate) fn verif_chunks<R: io::Read>(
+	reader: R,
+	stop_after: Option<usize>,
+) -> Vec<Result<(String, bool), String>> {
+	let mut out = vec![];
+	let mut chunker = Chunker::new(reader);
+	while stop_after.map_or(true, |n| out.len() < n) {
+		match chunker.next() {
+			None => break,
+			Some(Ok(doc)) => out.push(Ok((doc.content().to_owned(), doc.is_collection()))),
+			Some(Err(err)) => {
+				out.push(Err(err.to_string()));
+				break;
+			}
+		}
+	}
+	out
+}
+
+#[cfg(feature = "verif")]
+pub(crate) fn verif_events<R: io::Read>(
+	reader: R,
+	stop_after: Option<usize>,
+) -> (Vec<(u32, u64, u64)>, Option<String>) {
+	chunker::verif_events(reader, stop_after)
+}
